@@ -295,7 +295,8 @@ func (op FixedPoint) Op_instruction_internal_state(arch *Arch, flavor string) st
 }
 
 func (Op FixedPoint) Op_instruction_verilog_reset(arch *Arch, flavor string) string {
-	return ""
+	// Without a reset value the state register is undefined and the instruction never starts
+	return "\t\t\t" + Op.fpName + "_" + arch.Tag + "_state <= #1 " + Op.fpName + "_" + arch.Tag + "_put;\n"
 }
 
 func (Op FixedPoint) Op_instruction_verilog_default_state(arch *Arch, flavor string) string {
